@@ -61,3 +61,13 @@ Proof.
   apply (rb_refines_spec nat 3 [Add [1;2]; Sample [1;0] 1; Add [3;4;5]]); [auto|].
   repeat constructor; cbn; auto.
 Qed.
+
+(* multi-agent sample(): entry i of what is reported for (field fi, agent a) is the value stored for that field and
+   agent in the experience drawn i-th — fields and agents of one sampled experience stay together *)
+Theorem ma_sample_sound : forall (X : Type) (mem : list (list (@sfield X))) idx nf agents fi a j i e f,
+  fi < nf -> nth_error agents j = Some a -> nth_error idx i = Some e -> nth_error mem e = Some f ->
+  exists row vals, nth_error (ma_sample mem idx nf agents) fi = Some row /\
+    nth_error row j = Some (a, vals) /\
+    nth_error vals i = Some (match nth_error f fi with Some fd => lookup a fd | None => None end).
+Proof. exact @ma_sample_spec. Qed.
+Print Assumptions ma_sample_sound.
